@@ -1,8 +1,12 @@
+import SignaloModel.Proofs.BridgeMedianAcc
 import SignaloModel.Proofs.MedianAccL
 /-!
 # C17 — Median filter accessors report true window min/median/max
 
-Property theorems for C17 (statements are printed by `#check`, axioms by `#print axioms`;
+Property theorems for C17 (statements are printed by `#check`, axioms by `#check @Registry.median_registry_accessors
+#check @Registry.median_registry_accessors_init
+#check @Registry.median_max_counterexample
+#print axioms`;
 `bin/check C17` re-elaborates this file on every run and audits the axiom lists).
 -/
 open SignaloModel
@@ -16,3 +20,6 @@ open SignaloModel
 #print axioms Median.acc_min
 #print axioms Median.acc_med
 #print axioms Median.acc_max_is_latest
+#print axioms Registry.median_registry_accessors
+#print axioms Registry.median_registry_accessors_init
+#print axioms Registry.median_max_counterexample
